@@ -312,6 +312,50 @@ func (r RtPanicStringer) String() string {
 	return strconv.Itoa(a[i])
 }
 
+// StructBlank has blank fields (fmt labels them "_:" under %+v and %#v).
+type StructBlank struct {
+	A int
+	_ int
+	B string
+	_ string
+}
+
+// StructD: byte arrays and named byte slices in exported and unexported
+// fields (reached by reflection without the right to Interface()).
+type StructD struct {
+	Name string
+	raw  [4]byte
+	Raw  [3]byte
+	nb   NBytes
+	ns   [2]NStr
+}
+
+// named byte-kinded types with methods: a slice or array of them is not a
+// byte string, each element goes through its method
+type ByteErr uint8
+
+func (b ByteErr) Error() string { return "BE" + strconv.Itoa(int(b)) }
+
+type ByteStringer uint8
+
+func (b ByteStringer) String() string { return "BS" + strconv.Itoa(int(b)) }
+
+// named slice / func types with methods that fail on the nil value (a nil
+// receiver that is not a pointer: fmt reports the panic, not <nil>)
+type SliceErr []string
+
+func (s SliceErr) Error() string { return "se:" + s[0] }
+
+type FuncStringer func() string
+
+func (f FuncStringer) String() string { return "fs:" + f() }
+
+// StructKey: a comparable struct with an interface-typed field, as a map key
+type StructKey struct {
+	A interface{}
+	B int
+}
+
 // YieldStringer gives up the processor inside its method, so that calls on
 // other goroutines run while this one is in the middle of a print.
 type YieldStringer struct {
